@@ -42,7 +42,8 @@ def handleXml (op : Str) (args : List Str) : Option String :=
       | 'C' :: ' ' :: r => some (Ctl.Ev.comment r)
       | 'D' :: ' ' :: r => some (Ctl.Ev.cdata r)
       | _ => none
-    some (joinFields [write evs])
+    -- `write_to` as the caller sees it: refused when a character XML cannot contain would be written
+    some (match writeChecked evs with | some r => joinFields [r] | none => "err\tunwritable")
   else if op == cs!"xml_escape" then
     match args with
     | [s] => some (joinFields [Xml.escape s])
